@@ -10,6 +10,7 @@ import (
 	"gopkg.in/yaml.v3"
 
 	"verifh/core"
+	"verifh/schemagen"
 )
 
 func init() { core.Register(c11{}) }
@@ -19,7 +20,7 @@ type c11 struct{}
 func (c11) ID() string    { return "C11" }
 func (c11) Level() string { return "exploration" }
 func (c11) Rule() string {
-	return "30 default-able facts (default network membership; implicit default network; <project>_<key> names of network/volume/secret/config; depends_on implied by links, network_mode/ipc/pid service: namespaces (alone, next to a plain value of another namespace, two at once), volumes_from; build context; dockerfile; port protocol; port mode; secret target; depends_on required; depends_on short list; env_file required; device count; pull_policy alias), each carried by its own service: every subset of <=3 facts left implicit and every subset of <=3 facts written explicitly (thorough: all 2^14 subsets of the first 14), delivered by main file (also declaring a `name:` other than the imposed project name, and with services and resources named x-... / with dots) / override / include / extended base (other file and same file), and (main file, extended base) under a later layer that restates the same entry in its other spelling and adds other entries to the same attributes; oracle: implicit model == all-explicit model delivered the same way. Plus, per fact, an explicit non-default value that must survive (written literally, and with every value of the service given through a variable), an implied depends_on that must not replace a declared one, and the `default` network present iff used, over every assignment of 3 services to 6 ways of using or not using it (implicit, explicit list, explicit mapping, with another network, network_mode, another network only). distinct = distinct subsets x origins"
+	return "30 default-able facts (default network membership; implicit default network; <project>_<key> names of network/volume/secret/config; depends_on implied by links, network_mode/ipc/pid service: namespaces (alone, next to a plain value of another namespace, two at once), volumes_from; build context; dockerfile; port protocol; port mode; secret target; depends_on required; depends_on short list; env_file required; device count; pull_policy alias), each carried by its own service: every subset of <=3 facts left implicit and every subset of <=3 facts written explicitly (thorough: all 2^14 subsets of the first 14), delivered by main file (also declaring a `name:` other than the imposed project name, and with services and resources named x-... / with dots) / override / include / extended base (other file and same file), and (main file, extended base) under a later layer that restates the same entry in its other spelling and adds other entries to the same attributes; oracle: implicit model == all-explicit model delivered the same way. Plus, per fact, an explicit non-default value that must survive (written literally, and with each value of the service in turn given through a variable: must load wherever the schema admits a string), an implied depends_on that must not replace a declared one, and the `default` network present iff used, over every assignment of 3 services to 6 ways of using or not using it (implicit, explicit list, explicit mapping, with another network, network_mode, another network only). distinct = distinct subsets x origins"
 }
 func (c11) Assumptions() []string {
 	return []string{"projects compared with go-cmp (EquateEmpty) over all model fields"}
@@ -268,6 +269,7 @@ func c11scn(facts []c11fact, doc, origin string) *Scn {
 }
 
 func (c11) Run(c *core.Ctx) {
+	sch, _ := schemagen.Load(RepoDir() + "/schema/compose-spec.json")
 	facts := c11facts()
 	n := len(facts)
 	all := uint32(1)<<n - 1
@@ -370,29 +372,36 @@ func (c11) Run(c *core.Ctx) {
 			}
 			i, f := i, f
 			id := fmt.Sprintf("nondefault/%s/%s", origin, f.name)
-			// the same with every value of the service written through a variable (where the schema admits that spelling)
-			c.Do(id+"/through-variables", func() core.Outcome {
-				body, env := c11varify(f.nonDef)
-				if body == "" {
-					return core.Outcome{Class: "na", Trivial: true}
-				}
-				facts2 := append([]c11fact{}, facts...)
-				facts2[i].nonDef = body
-				doc := c11doc(facts2, all, i)
-				s := c11scn(facts2, doc, origin)
-				s.Env = env
-				root := s.Materialise()
-				p, err := s.LoadAt(root)
-				sample := map[string]any{"fact": f.name, "origin": origin, "doc": doc, "env": env}
-				if err != nil {
-					// a position that does not take the textual spelling: nothing to assert
-					return core.Outcome{Class: "strict-position", Trivial: true}
-				}
-				if msg := f.nonDefOK(p, c11rename(fmt.Sprintf("f%02d", i), origin)); msg != "" {
-					return core.Outcome{Class: "ow", Sample: sample, Viol: &core.Violation{Key: "explicit-value-overwritten:" + f.name + ":through-variables", Msg: id + ": " + msg}}
-				}
-				return core.Outcome{Class: id + "/v", Sample: sample}
-			})
+			// the same with one value of the service at a time written through a variable; where the schema admits a string
+			// in that position the model must load and keep the explicit value
+			for vi, vr := range c11varify(f.nonDef) {
+				vi, vr := vi, vr
+				c.Do(fmt.Sprintf("%s/through-variable/%d:%s", id, vi, strings.Join(vr.path, ".")), func() core.Outcome {
+					facts2 := append([]c11fact{}, facts...)
+					facts2[i].nonDef = vr.body
+					doc := c11doc(facts2, all, i)
+					s := c11scn(facts2, doc, origin)
+					s.Env = map[string]string{}
+					for k, v := range vr.env {
+						s.Env[k] = c11rename(v, origin) // the names inside values follow the naming of the origin
+					}
+					root := s.Materialise()
+					p, err := s.LoadAt(root)
+					sample := map[string]any{"fact": f.name, "origin": origin, "doc": doc, "env": vr.env}
+					if err != nil {
+						if sch != nil && sch.Types(append([]string{"services", "svc"}, vr.path...))["string"] {
+							return core.Outcome{Class: "err", Sample: sample, Viol: &core.Violation{Key: "nondefault-rejected:" + f.name + ":through-variable",
+								Msg: fmt.Sprintf("%s: writing %s through a variable (the schema admits a string there) makes the load fail: %v", id, strings.Join(vr.path, "."), err)}}
+						}
+						// a position that does not take the textual spelling: nothing to assert
+						return core.Outcome{Class: "strict-position", Trivial: true}
+					}
+					if msg := f.nonDefOK(p, c11rename(fmt.Sprintf("f%02d", i), origin)); msg != "" {
+						return core.Outcome{Class: "ow", Sample: sample, Viol: &core.Violation{Key: "explicit-value-overwritten:" + f.name + ":through-variable", Msg: id + ": " + msg}}
+					}
+					return core.Outcome{Class: id + "/v", Sample: sample}
+				})
+			}
 			c.Do(id, func() core.Outcome {
 				doc := c11doc(facts, all, i)
 				s := c11scn(facts, doc, origin)
@@ -476,43 +485,37 @@ func c11rename(doc, origin string) string {
 	})
 }
 
-// c11varify rewrites a service body so that every scalar value is given through its own variable.
-func c11varify(fragment string) (string, map[string]string) {
+type c11variant struct {
+	body string
+	env  map[string]string
+	path []string
+}
+
+// c11varify gives, for every scalar value of a service body, the body with that value written through a variable.
+func c11varify(fragment string) []c11variant {
 	var m map[string]any
 	if err := yaml.Unmarshal([]byte("s:\n"+fragment), &m); err != nil {
-		return "", nil
+		return nil
 	}
-	env := map[string]string{}
-	var walk func(v any) any
-	walk = func(v any) any {
-		switch x := v.(type) {
-		case map[string]any:
-			for k, e := range x {
-				x[k] = walk(e)
-			}
-			return x
-		case []any:
-			for i, e := range x {
-				x[i] = walk(e)
-			}
-			return x
-		case nil:
-			return nil
-		default:
-			name := fmt.Sprintf("ND%d", len(env))
-			env[name] = fmt.Sprint(x)
-			return "${" + name + "}"
+	svc, ok := m["s"].(map[string]any)
+	if !ok {
+		return nil
+	}
+	var out []c11variant
+	for _, lf := range c08leaves(svc) {
+		lf.set("${ND}")
+		b, err := yaml.Marshal(svc)
+		lf.set(lf.val)
+		if err != nil {
+			continue
 		}
+		body := ""
+		for _, l := range strings.Split(strings.TrimRight(string(b), "\n"), "\n") {
+			body += "    " + l + "\n"
+		}
+		out = append(out, c11variant{body, map[string]string{"ND": fmt.Sprint(lf.val)}, lf.path})
 	}
-	b, err := yaml.Marshal(walk(m["s"]))
-	if err != nil {
-		return "", nil
-	}
-	out := ""
-	for _, l := range strings.Split(strings.TrimRight(string(b), "\n"), "\n") {
-		out += "    " + l + "\n"
-	}
-	return out, env
+	return out
 }
 
 func popcount(x uint32) int {
